@@ -270,6 +270,10 @@ func (x *exec) callEffects(ef *effects, ins ssa.CallInstruction, depth int, seen
 		}
 	}
 	if key == "" {
+		if a := varOf(c.Value); a != nil && x.unit != nil && x.unit.Spec != nil && x.unit.Spec.DynCalls[a.Comment] != "" {
+			ef.calls["var:"+a.Comment] = true
+			return
+		}
 		ef.all = true
 		ef.calls["dynamic"] = true
 		return
